@@ -552,26 +552,6 @@ impl Property for C10 {
     }
 
     fn run(&self, tape: &mut Tape, ctx: &Ctx, stats: &mut Stats) -> ScenarioResult {
-        // Every scenario runs on a thread of its own, so that state the code
-        // under test keeps per thread starts clean for each scenario and a
-        // re-run of the scenario (minimisation, replay) sees what this run saw.
-        let slot = crate::driver::current_slot();
-        std::thread::scope(|s| {
-            std::thread::Builder::new()
-                .stack_size(32 << 20)
-                .spawn_scoped(s, || {
-                    crate::driver::adopt_slot(slot);
-                    self.run_scenario(tape, ctx, stats)
-                })
-                .expect("spawn scenario thread")
-                .join()
-                .expect("scenario thread panicked (harness error)")
-        })
-    }
-}
-
-impl C10 {
-    fn run_scenario(&self, tape: &mut Tape, ctx: &Ctx, stats: &mut Stats) -> ScenarioResult {
         // workload: dictionary programs, or (one third) I/O scripts
         let (source, input, features): (String, Vec<u8>, Vec<&'static str>) = if tape.chance(1, 3) {
             let sc = crate::c08::gen_scenario(tape);
